@@ -73,7 +73,7 @@ pub fn case_strategy() -> BoxedStrategy<Case> {
     (
         0u8..4,
         prop_oneof![Just(1u8), Just(2u8), Just(3u8), Just(25u8)],
-        proptest::collection::vec(op_strategy(), 0..40),
+        proptest::collection::vec(op_strategy(), 0..vh_core::depth(40, 140)),
         proptest::collection::vec(any::<u16>(), 0..8),
     )
         .prop_map(|(node, cache, ops, settle_order)| Case { node, cache, ops, settle_order })
